@@ -90,7 +90,19 @@ type base struct {
 	st    int
 	code  string
 	det   any
+	// hook, when set, runs at the start of Details() (overlap cases: the request parks there)
+	hook func()
 }
+
+func (b *base) details() any {
+	if b.hook != nil {
+		b.hook()
+	}
+	return b.det
+}
+
+// detailsHook is given to every typed error built while it is set
+var detailsHook func()
 
 func (b *base) Error() string { return b.msg }
 
@@ -113,10 +125,10 @@ func (e *tC) Code() string      { return e.code }
 func (e *tSC) Code() string     { return e.code }
 func (e *tCD) Code() string     { return e.code }
 func (e *tSCD) Code() string    { return e.code }
-func (e *tD) Details() any      { return e.det }
-func (e *tSD) Details() any     { return e.det }
-func (e *tCD) Details() any     { return e.det }
-func (e *tSCD) Details() any    { return e.det }
+func (e *tD) Details() any { return e.details() }
+func (e *tSD) Details() any { return e.details() }
+func (e *tCD) Details() any { return e.details() }
+func (e *tSCD) Details() any { return e.details() }
 
 type (
 	u0   struct{ t0 }
@@ -168,7 +180,7 @@ func badDetail(k int) any {
 }
 
 func mkTyped(e errT) error {
-	b := base{msg: string(e.Msg), st: e.St, code: string(e.Code)}
+	b := base{msg: string(e.Msg), st: e.St, code: string(e.Code), hook: detailsHook}
 	if e.HasDe {
 		if e.BadDet > 0 {
 			b.det = badDetail(e.BadDet)
